@@ -3039,6 +3039,16 @@ class LinearOperator(object):
         if kwargs is None:
             kwargs = {}
 
+        # Operands may be given by keyword (torch.add(x, other=op), torch.add(input=x, other=op)):
+        # complete the positional tuple, since the dispatch below looks at args[0] / args[1] only
+        if len(args) < 2 and kwargs:
+            args, kwargs = tuple(args), dict(kwargs)
+            for names in (("input", "A"), ("other", "B"))[len(args) :]:
+                name = next((name for name in names if name in kwargs), None)
+                if name is None:
+                    break
+                args = args + (kwargs.pop(name),)
+
         if not isinstance(args[0], cls):
             if func not in _HANDLED_SECOND_ARG_FUNCTIONS or not all(
                 issubclass(t, (torch.Tensor, LinearOperator)) for t in types
